@@ -158,6 +158,16 @@ def hw_cases(draw):
     axis = draw(st.one_of(st.none(), st.just(-1), st.integers(0, len(shape) - 1)))
     ax = len(shape) - 1 if axis in (None, -1) else axis
     k = draw(st.integers(1, shape[ax]))
+    if draw(st.integers(0, 3)) == 0:
+        # many words per group: group weights of 256 and more (e.g. the weight of a whole 256-bit state), mostly-ones values
+        shape = list(shape)
+        shape[ax] = draw(st.sampled_from([16, 32, 33, 40, 64, 100, 300]))
+        shape = tuple(shape)
+        k = draw(st.sampled_from([shape[ax], shape[ax], max(1, shape[ax] // 2), 32, 16, 8, 4]))
+        k = min(k, shape[ax])
+        mx = np.iinfo(dt).max
+        data = draw(hnp.arrays(dt, shape, elements=st.sampled_from([mx, mx, mx, mx - 1, mx >> 1, 0]), fill=st.just(mx)))
+        return {'kind': 'hw', 'data': data, 'axis': axis, 'nb_words': k}
     data = draw(hnp.arrays(dt, shape, elements=st.integers(0, np.iinfo(dt).max)))
     return {'kind': 'hw', 'data': data, 'axis': axis, 'nb_words': k}
 
